@@ -24,7 +24,11 @@ EXTENDS Integers, Sequences, FiniteSets, TLC
 
 CONSTANTS TrimAt,       \* trim the buffer when cur > TrimAt     (code: 20_000_000)
           DefaultSock,  \* default recv size for sockets          (code: 4096)
-          AsIs          \* TRUE: enable the pinned tree's behaviour on exhausted sources
+          AsIs,         \* TRUE: enable the pinned tree's behaviour on exhausted sources
+          Eager         \* TRUE: the refill policy is free (the implementation may read ahead at any point);
+                        \* FALSE: reads happen exactly where ccsds_generator issues them today.
+                        \* The properties do not depend on the policy (both are model-checked), so trace
+                        \* validation runs with Eager = TRUE and never rejects a read for its timing.
 
 VARIABLES stream, total, kind, rsize, skip,      \* configuration (never change)
           srcpos,   \* bytes the source has handed over so far
@@ -152,6 +156,13 @@ AsIs_EmitShort == /\ AsIs /\ kind # "bytes"
                   /\ pc' = "top"
                   /\ UNCHANGED <<cfgvars, srcpos, base>>
 
+\* any read, at any point before the end: g bytes arrive from the source
+ReadBy(g) == /\ pc \notin {"done", "crash"}
+             /\ g \in 1 .. Remaining
+             /\ srcpos' = srcpos + g
+             /\ UNCHANGED <<cfgvars, base, cur, parsed, need, out, pc>>
+ReadAhead == Eager /\ kind # "bytes" /\ \E g \in Gots \ {0} : ReadBy(g)
+
 HdrReadAny == \E g \in Gots : HdrRead(g)
 BodyReadAny == \E g \in Gots : BodyRead(g)
 
@@ -160,7 +171,7 @@ AsIsNext == AsIs_CrashOnBytes \/ AsIs_HdrShort \/ AsIs_EmitShort
 Next == \/ TopStop \/ Top \/ Trim \/ NoTrim
         \/ HdrReady \/ HdrReadAny \/ HdrGiveUp \/ Hdr
         \/ BodyReady \/ BodyReadAny \/ BodyGiveUp \/ Emit
-        \/ AsIsNext
+        \/ AsIsNext \/ ReadAhead
 
 Fair == WF_vars(Next)
 
